@@ -7,6 +7,7 @@ import TrackVerif.GPMF.Driver
 import TrackVerif.GPMF.Mp4Driver
 import TrackVerif.Geo.Driver
 import TrackVerif.LT.Driver
+import TrackVerif.CLI.Driver
 /-
   Line-protocol driver.  One case per input line:
       AREA op arg… => impl-output-tokens…
@@ -39,6 +40,7 @@ def dispatch (line : String) : String :=
     | "M4" => GPMF.Mp4Driver.handle args impl
     | "GE" => Geo.Driver.handle args impl
     | "LT" => LT.Driver.handle args impl
+    | "CL" => CLI.Driver.handle args impl
     | _ => "BAD"
 
 partial def loop (h : IO.FS.Stream) (out : IO.FS.Stream) : IO Unit := do
